@@ -116,7 +116,7 @@ theorem hsort_sorted_es : ∀ l, (hsort l).Pairwise hle
 /-- `sort.Sort(hashCodes)` depends only on the bag of hash codes -/
 theorem hsort_eq_of_perm {l l' : List UInt64} (hp : l.Perm l') : hsort l = hsort l' :=
   List.Perm.eq_of_pairwise (le := hle)
-    (fun a b _ _ h1 h2 => bswap_inj (UInt64.le_antisymm h1 h2))
+    (fun _ _ _ _ h1 h2 => bswap_inj (UInt64.le_antisymm h1 h2))
     (hsort_sorted_es l) (hsort_sorted_es l') ((hsort_perm l).trans (hp.trans (hsort_perm l').symm))
 
 theorem hdedup_nodup : ∀ l, (hdedup l).Nodup
